@@ -158,9 +158,9 @@ fn apply_bsd0_patch(patch: &PatchFile, base_data: &[u8]) -> Result<Vec<u8>> {
     );
 
     // Calculate block positions
-    let ctrl_start = 32; // After bsdiff header
-    let data_start = ctrl_start + ctrl_block_size;
-    let extra_start = data_start + data_block_size;
+    let ctrl_start = 32usize; // After bsdiff header
+    let data_start = ctrl_start.saturating_add(ctrl_block_size);
+    let extra_start = data_start.saturating_add(data_block_size);
 
     // Validate block sizes
     if extra_start > bsdiff_data.len() {
@@ -177,6 +177,15 @@ fn apply_bsd0_patch(patch: &PatchFile, base_data: &[u8]) -> Result<Vec<u8>> {
 
     // Number of control blocks (each is 12 bytes: 3x u32)
     let num_ctrl_blocks = ctrl_block_size / 12;
+
+    // Every output byte is taken from the diff block or the extra block
+    if new_file_size > data_block.len() + extra_block.len() {
+        return Err(Error::invalid_format(format!(
+            "BSD0 patch cannot produce {new_file_size} bytes from {} diff and {} extra bytes",
+            data_block.len(),
+            extra_block.len()
+        )));
+    }
 
     // Allocate output buffer
     let mut new_data = vec![0u8; new_file_size];
